@@ -87,6 +87,9 @@ HandlerFinish(h) == /\ h \in DOMAIN spawned /\ ~spawned[h].done
                     /\ UNCHANGED <<net, narr, pc, cur, reads, closed, ret>>
 CloseCall == /\ ~closed /\ closed' = TRUE
              /\ UNCHANGED <<net, narr, pc, cur, reads, spawned, ret>>
+\* Close may be called by anybody at any time - the owner, a handler that has seen enough, a deferred call after Serve
+\* has returned; once the connection is closed another Close changes nothing
+CloseAgain == closed /\ UNCHANGED vars
 
 LoopStep(l) == CallRead(l) \/ Read(l) \/ ReadErrReturn(l) \/ ReadClosed(l) \/ ParseFail(l) \/ Spawn(l)
 
